@@ -47,7 +47,7 @@ static void vg_init() {
 #endif
     struct sigaction sa; memset(&sa, 0, sizeof sa); sa.sa_handler = vg_on_sig; sa.sa_flags = SA_NODEFER;
     sigaction(SIGSEGV, &sa, 0); sigaction(SIGBUS, &sa, 0); sigaction(SIGFPE, &sa, 0);
-    sigaction(SIGABRT, &sa, 0); sigaction(SIGALRM, &sa, 0); sigaction(SIGILL, &sa, 0);
+    sigaction(SIGABRT, &sa, 0); sigaction(SIGALRM, &sa, 0); sigaction(SIGILL, &sa, 0); sigaction(SIGPROF, &sa, 0);
 }
 // usage:  int st = vg_run(secs, [&]{ ...body... });   st: 0 ok, else the signal number (SIGALRM = timeout)
 template <class F> static int vg_run(unsigned secs, F body) {
@@ -60,11 +60,13 @@ template <class F> static int vg_run(unsigned secs, F body) {
 // the same with a watchdog in milliseconds (for calls that take microseconds when they terminate: many hanging inputs must not exhaust the driver's own time limit)
 #include <sys/time.h>
 template <class F> static int vg_run_ms(unsigned ms, F body) {
+    // the watchdog counts the CPU time of THIS process (ITIMER_PROF), not wall-clock time: on a loaded machine a call that takes microseconds
+    // may be descheduled for longer than the limit, and that must not look like a hang; a call that really hangs burns CPU and is caught
     vg_asan_hits = 0; vg_asan_first.clear();
     struct itimerval on = {{0, 0}, {(time_t)(ms / 1000), (suseconds_t)((ms % 1000) * 1000)}}, off = {{0, 0}, {0, 0}};
     int s = sigsetjmp(vg_jmp, 1);
-    if (s == 0) { vg_armed = 1; setitimer(ITIMER_REAL, &on, nullptr); body(); setitimer(ITIMER_REAL, &off, nullptr); vg_armed = 0; return 0; }
-    setitimer(ITIMER_REAL, &off, nullptr); return s;
+    if (s == 0) { vg_armed = 1; setitimer(ITIMER_PROF, &on, nullptr); body(); setitimer(ITIMER_PROF, &off, nullptr); vg_armed = 0; return 0; }
+    setitimer(ITIMER_PROF, &off, nullptr); return s == SIGPROF ? SIGALRM : s;
 }
 
 // Allocate n bytes flush against the end of a heap block so that the first byte
